@@ -446,8 +446,13 @@ pub fn scenario_codec_sweep_primitives<C: Suite>(rng: &mut TestRng, _p: &Params,
         codec: scalar_codec::<C>(),
     };
     sweep(rng, &s, &[])?;
-    // small scalars / small multiples of the generator have sparse encodings
-    let small = {
+    // small scalars / small multiples of the generator have sparse encodings; the edges of the scalar range
+    // (order-1, 2^top, 2^top +- 1, ...) sit next to the encodings that must be refused
+    let small = if rng.chance(50) {
+        let (name, x) = pick_boundary::<C>(rng, false);
+        notes.insert("second_scalar".into(), json!(name));
+        x
+    } else {
         let mut acc = zero::<C>();
         for _ in 0..rng.range(1, 40) {
             acc = acc + one::<C>();
